@@ -1156,6 +1156,22 @@ func probeF13(h *H) {
 	h.opStep()
 }
 
+// probeF13Subscribe: the reorganisation replaces the very block the catch-up arm stands on (same height), so the rescan
+// subscribes on a stale block; the next connected notification is rejected by the PrevBlock check of the current arm
+// and the catch-up arm then announces it anyway.
+func probeF13Subscribe(h *H) {
+	for k := 0; k < 4; k++ {
+		h.opStep()
+	}
+	best := len(h.m.chain) - 1
+	h.opReorg(1, h.branch(h.m.chain[best-1], 1))
+	h.opStep() // subscribes at the stale tip
+	h.opGrow(h.newBlockOn(h.tip()))
+	h.opNtfn() // PrevBlock mismatch: back to catch-up, no callback
+	h.opStep() // announces the child of a block the caller never saw
+	h.opStep()
+}
+
 // probeCurrentReorg: the same reorganisation once the rescan is current is handled correctly.
 func probeCurrentReorg(h *H) {
 	for h.mode == "catchup" {
@@ -1268,6 +1284,7 @@ func Run(t *tr.W, thorough bool) {
 		return caseCfg{name: name, lateFrom: 0, initLen: 5, startH: 1, wa: []int{1, 2}, wi: []inDef{{outp{extBase, 0}, 5}}, script: s}
 	}
 	runCase(t, rng, std("probe-f13", probeF13), &ticks)
+	runCase(t, rng, std("probe-f13-subscribe", probeF13Subscribe), &ticks)
 	runCase(t, rng, std("probe-current-reorg", probeCurrentReorg), &ticks)
 	runCase(t, rng, std("probe-retry", probeRetry), &ticks)
 	runCase(t, rng, std("probe-match", probeMatch), &ticks)
